@@ -89,6 +89,19 @@ def _run_one(args):
     return r
 
 
+def _unit_hashes(root, keys):
+    from . import extract
+    import ast
+    key = os.path.abspath(root)
+    repo = _dep_cache.get(key)
+    if repo is None:
+        repo = _dep_cache[key] = extract.Repo(root)
+    out = {}
+    for k in sorted(keys):
+        out[k] = hashlib.sha256(ast.dump(repo.units[k].node).encode()).hexdigest()[:16] if k in repo.units else "missing"
+    return out
+
+
 def _run_one_inner(args):
     task, cdir, use_cache = args
     fn = os.path.join(cdir, hashlib.sha256(task.cache_key().encode()).hexdigest()[:24] + ".json")
@@ -96,20 +109,31 @@ def _run_one_inner(args):
         try:
             with open(fn) as f:
                 r = json.load(f)
-            r["cached"] = True
-            return r
+            # a cached result is used only if every function body the task executed is unchanged - whatever the
+            # task declared as its dependencies
+            ur = r.get("units_read")
+            if ur is not None and _unit_hashes(task.root, ur) == ur:
+                r["cached"] = True
+                return r
         except Exception:       # noqa
             pass
     import sys
     cm = sys.modules.get("contracts.core")
     if cm is not None:
         cm._OPEN = 0      # per-task count of undischarged obligations (fast mode for the rest of a failing task)
+    im = sys.modules.get("pyvc.interp")
+    if im is not None:
+        im.UNITS_READ.clear()
     r = task.run()
     r["cached"] = False
     try:
+        r["units_read"] = _unit_hashes(task.root, set(im.UNITS_READ) if im is not None else set())
+    except Exception:           # noqa
+        r["units_read"] = None
+    try:
         tmp = fn + ".%d.tmp" % os.getpid()
         with open(tmp, "w") as f:
-            json.dump(r, f)
+            json.dump(r, f, default=str)
         os.replace(tmp, fn)
     except Exception:           # noqa
         pass
